@@ -1022,3 +1022,140 @@ func ruleMemoKeyPart(c *Ctx) {
 	}
 	c.note("M-KEY (part clause): %d memos keyed by a part of a string", n)
 }
+
+// ruleCursorImage (T12-PAIR): a byte cursor and its image.  When a loop carries a byte offset `a` into a text and a
+// second counter `b` that is advanced by a measure of the text between the old and the new cursor
+// (`b' = b + UTF16Len(text[a:x]) ...` - the Low bound of the measured slice is the cursor), `b` is the image of `a`
+// under that measure: column of offset.  The pair is consistent only if `b` moves whenever `a` does: a way back to the
+// loop header on which the cursor is moved and its image is kept leaves the image behind, and every later position
+// computed from it is too far left (C17-m30: a tag without a value moves searchStart past `name:` and keeps
+// searchCol; the following tags' tokens land inside the first tag).
+func ruleCursorImage(c *Ctx) {
+	if c.ranOnce("ruleCursorImage") {
+		return
+	}
+	n := 0
+	for _, f := range c.P.ModuleFuncs() {
+		for _, hb := range f.Blocks {
+			var back []int
+			for i, pred := range hb.Preds {
+				if reachesBlock(hb, pred) {
+					back = append(back, i)
+				}
+			}
+			if len(back) == 0 {
+				continue
+			}
+			var phis []*ssa.Phi
+			for _, ins := range hb.Instrs {
+				p, ok := ins.(*ssa.Phi)
+				if !ok {
+					break
+				}
+				if isIntType(p.Type()) {
+					phis = append(phis, p)
+				}
+			}
+			for _, b := range phis {
+				for _, a := range phis {
+					if a == b {
+						continue
+					}
+					// b is advanced by a measure of text[a:...] on some way back
+					image := false
+					for _, i := range back {
+						if i >= len(b.Edges) {
+							continue
+						}
+						sl := backSliceStopAtPhis(b.Edges[i], hb)
+						if !sl[b] {
+							continue
+						}
+						for w := range sl {
+							s, ok := w.(*ssa.Slice)
+							if !ok || s.Low == nil {
+								continue
+							}
+							if bt, ok := s.X.Type().Underlying().(*types.Basic); !ok || bt.Info()&types.IsString == 0 {
+								continue
+							}
+							if stripConv(s.Low) == ssa.Value(a) {
+								// the slice is measured (handed to a call whose integer result is in the slice)
+								if s.Referrers() != nil {
+									for _, r := range *s.Referrers() {
+										if call, ok := r.(*ssa.Call); ok && sl[call] && isIntType(call.Type()) {
+											image = true
+										}
+									}
+								}
+							}
+						}
+					}
+					if !image {
+						continue
+					}
+					n++
+					for _, j := range back {
+						if j >= len(a.Edges) || j >= len(b.Edges) {
+							continue
+						}
+						aMoves := !sameThroughPhiInt(a.Edges[j], a)
+						bMoves := !sameThroughPhiInt(b.Edges[j], b)
+						c.check(!(aMoves && !bMoves), "T12-PAIR", funcName(f), "a cursor and its measured image move together", lastInstr(hb.Preds[j]).Pos(),
+							"on this way back to the loop header the image is advanced with the cursor (or neither moves)",
+							"a loop carries a byte cursor into a text and a counter that is advanced by a measure (UTF-16 length) of the text behind the cursor; on this way back to the loop header the cursor is moved but the counter keeps its value: it no longer is the column of the cursor, so every position computed from it afterwards is too far left - tokens inside or before earlier ones, ranges that do not cover their text")
+					}
+				}
+			}
+		}
+	}
+	c.note("T12-PAIR: %d cursor/image pairs", n)
+}
+
+// sameThroughPhiInt: v is the header phi itself on every path (possibly through inner merges of it with itself).
+func sameThroughPhiInt(v ssa.Value, phi *ssa.Phi) bool {
+	seen := map[ssa.Value]bool{}
+	var same func(v ssa.Value) bool
+	same = func(v ssa.Value) bool {
+		v = stripConv(v)
+		if v == ssa.Value(phi) || seen[v] {
+			return true
+		}
+		seen[v] = true
+		if p2, ok := v.(*ssa.Phi); ok {
+			for _, e := range p2.Edges {
+				if !same(e) {
+					return false
+				}
+			}
+			return len(p2.Edges) > 0
+		}
+		return false
+	}
+	return same(v)
+}
+
+// backSliceStopAtPhis: the values v is computed from, not looking through the phis of the loop header hb (they are in
+// the result, their edges are not followed); memory is not followed.
+func backSliceStopAtPhis(v ssa.Value, hb *ssa.BasicBlock) map[ssa.Value]bool {
+	out := map[ssa.Value]bool{}
+	var visit func(v ssa.Value, depth int)
+	visit = func(v ssa.Value, depth int) {
+		if v == nil || out[v] || depth > 24 {
+			return
+		}
+		out[v] = true
+		if p, ok := v.(*ssa.Phi); ok && p.Block() == hb {
+			return
+		}
+		if ins, ok := v.(ssa.Instruction); ok {
+			for _, op := range ins.Operands(nil) {
+				if *op != nil {
+					visit(*op, depth+1)
+				}
+			}
+		}
+	}
+	visit(v, 0)
+	return out
+}
